@@ -554,8 +554,10 @@ class Mutations:
 
         mutate_attr, mutate_param = hp_config.sample()
 
-        if mutate_param.value is None:
-            mutate_param.value = getattr(individual, mutate_attr)
+        # NOTE: Always mutate from the individual's own current value. The RLParameter object may
+        # be shared by several individuals (e.g. the initial population is built from a single
+        # HyperparameterConfig), in which case a cached value belongs to whoever mutated last.
+        mutate_param.value = getattr(individual, mutate_attr)
 
         # Randomly grow or shrink hyperparameters by specified factors
         new_value = mutate_param.mutate()
@@ -565,14 +567,13 @@ class Mutations:
         # Need to reinitialize respective optimizer if mutated learning rate
         if mutate_attr in individual.get_lr_names():
             optimizer_configs = individual.registry.optimizers
-            to_reinit = [
+            # Reinitialise every optimizer that uses the mutated learning rate
+            for to_reinit in [
                 opt_config
                 for opt_config in optimizer_configs
                 if mutate_attr == opt_config.lr
-            ][0]
-            self.reinit_opt(
-                individual, optimizer=to_reinit
-            )  # Reinitialise optimizer if new learning rate
+            ]:
+                self.reinit_opt(individual, optimizer=to_reinit)
 
         individual.mut = mutate_attr
 
